@@ -59,13 +59,17 @@ class UMNDirHandler(DirHandler):
             # If the parent says it's OK, then let's see if it's
             # a link file.  If yes, process it and return false.
             if file[0] == ".":
-                if not self.vfs.isdir(self.selectorbase + "/" + file):
-                    self.linkentries.extend(
-                        self.processLinkFile(self.selectorbase + "/" + file)
-                    )
-                    return False
-                else:
-                    return False  # A "dot dir" -- ignore.
+                # Only a regular file can be a link file.  A "dot dir", a
+                # dangling symlink, a FIFO (opening it would block) or a
+                # socket is ignored, and so is a link file we cannot read.
+                if self.vfs.isfile(self.selectorbase + "/" + file):
+                    try:
+                        self.linkentries.extend(
+                            self.processLinkFile(self.selectorbase + "/" + file)
+                        )
+                    except IOError:
+                        pass
+                return False
             return True  # Not a dot file -- return true
         else:
             return False  # Parent returned 0, do the same.
